@@ -560,6 +560,7 @@ impl<S> Repository<S> {
         let mut dbe = DecryptBackend::new(self.be.clone(), key);
         dbe.set_zstd(config.zstd()?);
         dbe.set_extra_verify(config.extra_verify());
+        dbe.set_verify_id(true);
 
         let open = OpenStatus {
             cache,
